@@ -91,12 +91,17 @@ func TestType5(t *testing.T) { runType(t, 5, 150, 24000) }
 // TestInterleavedRequests: one client object per type creates several requests before any is finalized;
 // they are then issued and finalized in a drawn order. Every run must still be a valid, correctly bound issuance.
 func TestInterleavedRequests(t *testing.T) {
-	s := rt.S("interleaved").SetRule("one client object (package constructor) creates 2..4 requests of a type - same or different keys, challenges, nonces - before any is finalized; requests are evaluated and finalized in a drawn order; same oracle per run. non-trivial = every sequence; distinct by request bytes")
+	s := rt.S("interleaved").SetRule("one client object (package constructor) creates 2..4 (now and then 9..70) requests of a type - same or different keys, challenges, nonces - before any is finalized; requests are evaluated and finalized in a drawn order; same oracle per run. non-trivial = every sequence; distinct by request bytes")
 	rt.Check(t, 120, 24000, func(t *rapid.T) {
 		defer rt.Entropy(gen.Seed().Draw(t, "entropy"))()
 		typ := gen.Pick(t, []uint16{1, 2, 3, 5}, "type")
 		cl := gen.NewClients()
 		n := gen.UniformRange(t, 2, 4, "requests")
+		if gen.Uniform(t, 12, "manyOutstanding") == 0 {
+			// now and then MANY outstanding requests of one client object (pools, free lists and tables have capacities)
+			n = gen.Pick(t, []int{9, 17, 33, 70}, "manyRequests")
+			s.Class("many-outstanding-requests")
+		}
 		var sessions []*gen.Session
 		o := gen.SessionOpts{MaxBatch: 4, RKeyIdx: -1, Clients: cl}
 		if typ == 3 {
